@@ -8,6 +8,8 @@
 (*               u = first tuple of the scanned (type, table)); r = integer     *)
 (*               reply, rl = list reply (keys), d = dump: d[x] = enumeration of *)
 (*               tuple x as a sequence of <<sub, value>> pairs                  *)
+(*               multi-key commands: ks = slots (kv tuples, or <= 0 = an invalid  *)
+(*               name), vs = values (mset); delrange: a = table, ks = <<lo, hi>>  *)
 (*               limit probes: op = "limit", a = key length, b = sub-key length, *)
 (*               rl = <<value length, length of table:key>>, r = -998 / 0        *)
 (* The first disagreement of a segment is printed as                            *)
@@ -28,19 +30,33 @@ Valid ==
   \/ E.op \in {"deltable", "runexpiry"}
   \/ E.op = "limit" /\ Len(E.rl) = 2
   \/ E.op = "keys" /\ E.u \in Tups
+  \/ E.op \in {"mget", "mexists", "mdel"} /\ \A i \in 1..Len(E.ks) : E.ks[i] <= 0 \/ (E.ks[i] \in Tups /\ TyOf(E.ks[i]) = 1)
+  \/ E.op = "mset" /\ Len(E.vs) = Len(E.ks) /\ \A i \in 1..Len(E.ks) : E.ks[i] \in Tups /\ TyOf(E.ks[i]) = 1
+  \/ E.op = "delrange" /\ Len(E.ks) = 2
   \/ E.u \in Tups /\ E.op \in OpsOf(TyOf(E.u))
 
 \* a whole-table delete that was refused (reply -998) must change nothing
 Refused == E.op = "deltable" /\ E.r = -998
-ExpSt  == IF Refused THEN st ELSE After(st, E.op, E.u, E.a, E.b)
+ExpSt  == IF Refused THEN st
+          ELSE IF E.op \in {"mget", "mexists"} THEN st
+          ELSE IF E.op = "mdel" THEN MDelAfter(st, E.ks)
+          ELSE IF E.op = "mset" THEN MSetAfter(st, E.ks, E.vs)
+          ELSE IF E.op = "delrange" THEN (IF E.r = -998 THEN st ELSE DelRangeAfter(st, E.a, E.ks[1], E.ks[2]))
+          ELSE After(st, E.op, E.u, E.a, E.b)
 ExpR   == IF Refused THEN -998
+          ELSE IF E.op = "mexists" THEN MExists(st, E.ks)
+          ELSE IF E.op = "mdel" THEN MDelReply(st, E.ks)
+          ELSE IF E.op \in {"mget", "mset"} THEN 0
+          ELSE IF E.op = "delrange" THEN (IF E.r = -998 THEN -998 ELSE 0)
           ELSE IF E.op = "limit" THEN LimitReply(E.a, E.rl[2], E.b, E.rl[1], E.r)   \* a = key, b = sub-key, rl = <<value, table:key>> lengths
           ELSE IF E.op = "pfadd" \/ (E.op = "del" /\ E.u \in Tups /\ TyOf(E.u) = 8)
                THEN E.r   \* replies of PFADD, and of DEL on a HyperLogLog key (write cache, recorded under C07), are not modelled
           ELSE ReplyOf(st, E.op, E.u, E.a, E.b)
 ExpRl  == IF E.op = "keys" THEN KeysOf(st, TyOf(E.u), TabOf(E.u))
           ELSE IF E.op = "limit" THEN E.rl
+          ELSE IF E.op = "mget" THEN [i \in 1..Len(E.ks) |-> IF E.ks[i] > 0 THEN SlotVal(st, E.ks[i]) ELSE -998]
           ELSE IF E.op = "zrangebylex" THEN LexMembers(st[E.u], E.a, E.b) ELSE <<>>
+RlOK   == IF E.op = "mget" THEN MGetOK(st, E.ks, E.rl) ELSE E.rl = ExpRl
 Diff   == IF Len(E.d) = NTup THEN {x \in Tups : Dump(ExpSt, x) # E.d[x]} ELSE {}
 
 Mismatch == /\ bad' = TRUE
@@ -55,8 +71,10 @@ TNext ==
      ELSE IF bad THEN UNCHANGED <<st, ttl, bad>>
      ELSE IF /\ E.ev = "cmd" /\ Valid
              /\ Len(E.d) = NTup
-             /\ E.r = ExpR /\ E.rl = ExpRl /\ Diff = {}
-          THEN (IF Refused THEN UNCHANGED <<st, ttl>> ELSE Do(E.op, E.u, E.a, E.b)) /\ UNCHANGED bad
+             /\ E.r = ExpR /\ RlOK /\ Diff = {}
+          THEN (IF Refused THEN UNCHANGED <<st, ttl>>
+                ELSE IF E.op \in MultiOps THEN st' = ExpSt /\ UNCHANGED ttl
+                ELSE Do(E.op, E.u, E.a, E.b)) /\ UNCHANGED bad
           ELSE Mismatch
 
 TSpec == TInit /\ [][TNext]_tvars
